@@ -1,1 +1,1009 @@
-pub fn placeholder(){}
+//! Independent model of the DICOM upper layer PDUs (PS3.8 section 9.3, Annex D of PS3.7 for the
+//! user information sub-items), with an encoder that derives every length field from content and
+//! a strict parser that checks every length field against content.
+//!
+//! No dicom-rs dependency. Text fields are kept as raw bytes (no trimming, no character set
+//! conversion) so that the model is exact; `text()` gives the trimmed reading
+//! (trailing/leading spaces and trailing NULs are not significant).
+//!
+//! Wire format summary (all integers big endian):
+//!
+//! ```text
+//! PDU            : type(1) reserved(1) length(4) body[length]
+//! A-ASSOCIATE-RQ : 01  body = version(2) reserved(2) called(16) calling(16) reserved(32) items*
+//! A-ASSOCIATE-AC : 02  same layout (the AE title fields are "reserved, echo of the request")
+//! A-ASSOCIATE-RJ : 03  body = reserved(1) result(1) source(1) reason(1)
+//! P-DATA-TF      : 04  body = PDV*,  PDV = length(4) context-id(1) control-header(1) data[length-2]
+//! A-RELEASE-RQ/RP: 05/06 body = reserved(4)
+//! A-ABORT        : 07  body = reserved(2) source(1) reason(1)
+//! item           : type(1) reserved(1) length(2) body[length]
+//!   10 application context        body = name
+//!   20 presentation context (RQ)  body = id(1) reserved(3) [30 abstract syntax] [40 transfer syntax]*
+//!   21 presentation context (AC)  body = id(1) reserved(1) result(1) reserved(1) [40 transfer syntax]
+//!   50 user information           body = sub-items
+//!     51 maximum length           body = u32
+//!     52 implementation class UID body = uid
+//!     53 asynchronous ops window  body = invoked(2) performed(2)
+//!     54 SCP/SCU role selection   body = uid-length(2) uid scu(1) scp(1)
+//!     55 implementation version   body = name
+//!     56 SOP class extended neg.  body = uid-length(2) uid application-information*
+//!     57 SOP class common ext.neg body = uid-length(2) uid service-class-length(2) service-class
+//!                                        related-length(2) { uid-length(2) uid }* reserved*
+//!     58 user identity (RQ)       body = type(1) positive-response(1) plen(2) primary slen(2) secondary
+//!     59 user identity (AC)       body = response-length(2) response
+//! ```
+
+use std::fmt::Write as _;
+
+/// PDU type codes
+pub const T_ASSOCIATE_RQ: u8 = 0x01;
+pub const T_ASSOCIATE_AC: u8 = 0x02;
+pub const T_ASSOCIATE_RJ: u8 = 0x03;
+pub const T_PDATA: u8 = 0x04;
+pub const T_RELEASE_RQ: u8 = 0x05;
+pub const T_RELEASE_RP: u8 = 0x06;
+pub const T_ABORT: u8 = 0x07;
+
+/// The DICOM application context name (PS3.7 Annex A).
+pub const APP_CONTEXT: &str = "1.2.840.10008.3.1.1.1";
+
+/// One presentation data value of a P-DATA-TF PDU.
+#[derive(Clone, Debug, PartialEq, Eq, Hash)]
+pub struct RPdv {
+    pub pc_id: u8,
+    /// the message control header byte as on the wire (bit 0: command, bit 1: last fragment)
+    pub header: u8,
+    pub data: Vec<u8>,
+}
+
+impl RPdv {
+    pub fn new(pc_id: u8, command: bool, last: bool, data: Vec<u8>) -> Self {
+        RPdv { pc_id, header: (command as u8) | ((last as u8) << 1), data }
+    }
+    pub fn is_command(&self) -> bool {
+        self.header & 1 != 0
+    }
+    pub fn is_last(&self) -> bool {
+        self.header & 2 != 0
+    }
+}
+
+/// Proposed presentation context (item 20H).
+#[derive(Clone, Debug, PartialEq, Eq, Hash)]
+pub struct RPcRq {
+    pub id: u8,
+    pub abstract_syntax: Vec<u8>,
+    pub transfer_syntaxes: Vec<Vec<u8>>,
+}
+
+/// Presentation context result (item 21H).
+#[derive(Clone, Debug, PartialEq, Eq, Hash)]
+pub struct RPcAc {
+    pub id: u8,
+    /// 0 acceptance, 1 user-rejection, 2 no-reason, 3 abstract-syntax-not-supported,
+    /// 4 transfer-syntaxes-not-supported
+    pub result: u8,
+    pub transfer_syntax: Vec<u8>,
+}
+
+/// User information sub-items (PS3.8 Annex D, PS3.7 Annex D).
+#[derive(Clone, Debug, PartialEq, Eq, Hash)]
+pub enum RUserItem {
+    MaxLength(u32),
+    ImplClassUid(Vec<u8>),
+    AsyncOpsWindow { invoked: u16, performed: u16 },
+    RoleSelection { uid: Vec<u8>, scu: u8, scp: u8 },
+    ImplVersionName(Vec<u8>),
+    ExtNeg { uid: Vec<u8>, info: Vec<u8> },
+    CommonExtNeg { uid: Vec<u8>, service_class: Vec<u8>, related: Vec<Vec<u8>>, reserved: Vec<u8> },
+    UserIdentityRq { id_type: u8, positive_response: u8, primary: Vec<u8>, secondary: Vec<u8> },
+    UserIdentityAc { response: Vec<u8> },
+    Unknown { item_type: u8, data: Vec<u8> },
+}
+
+impl RUserItem {
+    pub fn item_type(&self) -> u8 {
+        match self {
+            RUserItem::MaxLength(_) => 0x51,
+            RUserItem::ImplClassUid(_) => 0x52,
+            RUserItem::AsyncOpsWindow { .. } => 0x53,
+            RUserItem::RoleSelection { .. } => 0x54,
+            RUserItem::ImplVersionName(_) => 0x55,
+            RUserItem::ExtNeg { .. } => 0x56,
+            RUserItem::CommonExtNeg { .. } => 0x57,
+            RUserItem::UserIdentityRq { .. } => 0x58,
+            RUserItem::UserIdentityAc { .. } => 0x59,
+            RUserItem::Unknown { item_type, .. } => *item_type,
+        }
+    }
+}
+
+/// Common part of A-ASSOCIATE-RQ and A-ASSOCIATE-AC.
+#[derive(Clone, Debug, PartialEq, Eq, Hash)]
+pub struct RAssocHead {
+    pub protocol_version: u16,
+    /// bytes 11-26, exactly 16 bytes
+    pub called_ae: Vec<u8>,
+    /// bytes 27-42, exactly 16 bytes
+    pub calling_ae: Vec<u8>,
+    pub app_context: Vec<u8>,
+    /// `None`: no user information item at all (not permitted by the standard, but representable)
+    pub user_info: Option<Vec<RUserItem>>,
+}
+
+impl RAssocHead {
+    pub fn new(called: &str, calling: &str) -> Self {
+        RAssocHead {
+            protocol_version: 1,
+            called_ae: ae16(called),
+            calling_ae: ae16(calling),
+            app_context: APP_CONTEXT.as_bytes().to_vec(),
+            user_info: Some(vec![]),
+        }
+    }
+    /// The value of the Maximum Length sub-item, if present.
+    pub fn max_length(&self) -> Option<u32> {
+        self.user_info.as_ref()?.iter().find_map(|u| match u {
+            RUserItem::MaxLength(v) => Some(*v),
+            _ => None,
+        })
+    }
+}
+
+/// A protocol data unit.
+#[derive(Clone, Debug, PartialEq, Eq, Hash)]
+pub enum RPdu {
+    AssociateRq { head: RAssocHead, pcs: Vec<RPcRq> },
+    AssociateAc { head: RAssocHead, pcs: Vec<RPcAc> },
+    AssociateRj { result: u8, source: u8, reason: u8 },
+    PData(Vec<RPdv>),
+    ReleaseRq,
+    ReleaseRp,
+    Abort { source: u8, reason: u8 },
+    Unknown { pdu_type: u8, data: Vec<u8> },
+}
+
+impl RPdu {
+    pub fn pdu_type(&self) -> u8 {
+        match self {
+            RPdu::AssociateRq { .. } => T_ASSOCIATE_RQ,
+            RPdu::AssociateAc { .. } => T_ASSOCIATE_AC,
+            RPdu::AssociateRj { .. } => T_ASSOCIATE_RJ,
+            RPdu::PData(_) => T_PDATA,
+            RPdu::ReleaseRq => T_RELEASE_RQ,
+            RPdu::ReleaseRp => T_RELEASE_RP,
+            RPdu::Abort { .. } => T_ABORT,
+            RPdu::Unknown { pdu_type, .. } => *pdu_type,
+        }
+    }
+
+    /// Short kind label: ARQ, AAC, ARJ, DATA, RRQ, RRP, ABORT, UNK.
+    pub fn kind(&self) -> &'static str {
+        match self {
+            RPdu::AssociateRq { .. } => "ARQ",
+            RPdu::AssociateAc { .. } => "AAC",
+            RPdu::AssociateRj { .. } => "ARJ",
+            RPdu::PData(_) => "DATA",
+            RPdu::ReleaseRq => "RRQ",
+            RPdu::ReleaseRp => "RRP",
+            RPdu::Abort { .. } => "ABORT",
+            RPdu::Unknown { .. } => "UNK",
+        }
+    }
+
+    /// Readable one-line rendering with long byte strings abbreviated.
+    pub fn summary(&self) -> String {
+        fn bytes(b: &[u8]) -> String {
+            if b.len() <= 24 && b.iter().all(|c| (0x20..0x7f).contains(c)) {
+                format!("{:?}", String::from_utf8_lossy(b))
+            } else if b.len() <= 12 {
+                format!("x{}", hex(b))
+            } else {
+                format!("x{}..({} bytes)", hex(&b[..8]), b.len())
+            }
+        }
+        fn users(u: &Option<Vec<RUserItem>>) -> String {
+            match u {
+                None => "no-user-info".into(),
+                Some(v) => {
+                    let mut s = String::from("user[");
+                    for (i, it) in v.iter().enumerate() {
+                        if i > 0 {
+                            s.push(' ');
+                        }
+                        match it {
+                            RUserItem::MaxLength(m) => write!(s, "max={m}").unwrap(),
+                            RUserItem::ImplClassUid(b) => write!(s, "impl={}", bytes(b)).unwrap(),
+                            RUserItem::AsyncOpsWindow { invoked, performed } => {
+                                write!(s, "async={invoked}/{performed}").unwrap()
+                            }
+                            RUserItem::RoleSelection { uid, scu, scp } => {
+                                write!(s, "role({},{scu},{scp})", bytes(uid)).unwrap()
+                            }
+                            RUserItem::ImplVersionName(b) => write!(s, "ver={}", bytes(b)).unwrap(),
+                            RUserItem::ExtNeg { uid, info } => {
+                                write!(s, "ext({},{})", bytes(uid), bytes(info)).unwrap()
+                            }
+                            RUserItem::CommonExtNeg { uid, service_class, related, reserved } => write!(
+                                s,
+                                "cext({},{},{} related,{} reserved)",
+                                bytes(uid),
+                                bytes(service_class),
+                                related.len(),
+                                reserved.len()
+                            )
+                            .unwrap(),
+                            RUserItem::UserIdentityRq { id_type, positive_response, primary, secondary } => write!(
+                                s,
+                                "uid-rq({id_type},{positive_response},{},{})",
+                                bytes(primary),
+                                bytes(secondary)
+                            )
+                            .unwrap(),
+                            RUserItem::UserIdentityAc { response } => {
+                                write!(s, "uid-ac({})", bytes(response)).unwrap()
+                            }
+                            RUserItem::Unknown { item_type, data } => {
+                                write!(s, "unk{:02X}({})", item_type, bytes(data)).unwrap()
+                            }
+                        }
+                    }
+                    s.push(']');
+                    s
+                }
+            }
+        }
+        fn head(h: &RAssocHead) -> String {
+            format!(
+                "v{} called={} calling={} app={}",
+                h.protocol_version,
+                bytes(&h.called_ae),
+                bytes(&h.calling_ae),
+                bytes(&h.app_context)
+            )
+        }
+        match self {
+            RPdu::AssociateRq { head: h, pcs } => {
+                let mut s = format!("A-ASSOCIATE-RQ {} ", head(h));
+                for pc in pcs {
+                    write!(s, "pc{}({};", pc.id, bytes(&pc.abstract_syntax)).unwrap();
+                    for ts in &pc.transfer_syntaxes {
+                        write!(s, " {}", bytes(ts)).unwrap();
+                    }
+                    s.push_str(") ");
+                }
+                s + &users(&h.user_info)
+            }
+            RPdu::AssociateAc { head: h, pcs } => {
+                let mut s = format!("A-ASSOCIATE-AC {} ", head(h));
+                for pc in pcs {
+                    write!(s, "pc{}(r{} {}) ", pc.id, pc.result, bytes(&pc.transfer_syntax)).unwrap();
+                }
+                s + &users(&h.user_info)
+            }
+            RPdu::AssociateRj { result, source, reason } => {
+                format!("A-ASSOCIATE-RJ result={result} source={source} reason={reason}")
+            }
+            RPdu::PData(pdvs) => {
+                let mut s = String::from("P-DATA-TF");
+                for v in pdvs {
+                    write!(
+                        s,
+                        " pdv(pc{} {}{} {})",
+                        v.pc_id,
+                        if v.is_command() { "cmd" } else { "data" },
+                        if v.is_last() { " last" } else { "" },
+                        bytes(&v.data)
+                    )
+                    .unwrap();
+                }
+                s
+            }
+            RPdu::ReleaseRq => "A-RELEASE-RQ".into(),
+            RPdu::ReleaseRp => "A-RELEASE-RP".into(),
+            RPdu::Abort { source, reason } => format!("A-ABORT source={source} reason={reason}"),
+            RPdu::Unknown { pdu_type, data } => format!("PDU-{:02X} {}", pdu_type, bytes(data)),
+        }
+    }
+}
+
+/// Lower-case hex rendering.
+pub fn hex(b: &[u8]) -> String {
+    let mut s = String::with_capacity(b.len() * 2);
+    for x in b {
+        write!(s, "{x:02x}").unwrap();
+    }
+    s
+}
+
+/// An AE title field: the text padded with spaces to 16 bytes (longer text is cut at 16).
+pub fn ae16(s: &str) -> Vec<u8> {
+    let mut v = s.as_bytes().to_vec();
+    v.resize(16, b' ');
+    v
+}
+
+/// The significant part of a text field: leading/trailing spaces and trailing NULs removed.
+pub fn text(b: &[u8]) -> String {
+    let s = String::from_utf8_lossy(b);
+    s.trim_matches(|c: char| c == ' ' || c == '\0').to_string()
+}
+
+// ------------------------------------------------------------------------------------------------
+// encoder
+
+/// Frame `body` as an item / sub-item with a 16-bit length. `Err` if the body does not fit.
+pub fn item(item_type: u8, body: &[u8]) -> Result<Vec<u8>, String> {
+    if body.len() > 0xFFFF {
+        return Err(format!("item {:02X}H: content of {} bytes does not fit a 16-bit length", item_type, body.len()));
+    }
+    let mut v = Vec::with_capacity(4 + body.len());
+    v.push(item_type);
+    v.push(0);
+    v.extend_from_slice(&(body.len() as u16).to_be_bytes());
+    v.extend_from_slice(body);
+    Ok(v)
+}
+
+/// Frame `body` as a PDU with a 32-bit length.
+pub fn frame(pdu_type: u8, body: &[u8]) -> Result<Vec<u8>, String> {
+    if body.len() > 0xFFFF_FFFF {
+        return Err("PDU body does not fit a 32-bit length".into());
+    }
+    let mut v = Vec::with_capacity(6 + body.len());
+    v.push(pdu_type);
+    v.push(0);
+    v.extend_from_slice(&(body.len() as u32).to_be_bytes());
+    v.extend_from_slice(body);
+    Ok(v)
+}
+
+fn len16(what: &str, b: &[u8]) -> Result<[u8; 2], String> {
+    if b.len() > 0xFFFF {
+        return Err(format!("{what}: {} bytes do not fit a 16-bit length", b.len()));
+    }
+    Ok((b.len() as u16).to_be_bytes())
+}
+
+/// Encode one user information sub-item.
+pub fn encode_user_item(u: &RUserItem) -> Result<Vec<u8>, String> {
+    let mut b = Vec::new();
+    match u {
+        RUserItem::MaxLength(m) => b.extend_from_slice(&m.to_be_bytes()),
+        RUserItem::ImplClassUid(x) | RUserItem::ImplVersionName(x) => b.extend_from_slice(x),
+        RUserItem::AsyncOpsWindow { invoked, performed } => {
+            b.extend_from_slice(&invoked.to_be_bytes());
+            b.extend_from_slice(&performed.to_be_bytes());
+        }
+        RUserItem::RoleSelection { uid, scu, scp } => {
+            b.extend_from_slice(&len16("role selection uid", uid)?);
+            b.extend_from_slice(uid);
+            b.push(*scu);
+            b.push(*scp);
+        }
+        RUserItem::ExtNeg { uid, info } => {
+            b.extend_from_slice(&len16("extended negotiation uid", uid)?);
+            b.extend_from_slice(uid);
+            b.extend_from_slice(info);
+        }
+        RUserItem::CommonExtNeg { uid, service_class, related, reserved } => {
+            b.extend_from_slice(&len16("common extended negotiation uid", uid)?);
+            b.extend_from_slice(uid);
+            b.extend_from_slice(&len16("service class uid", service_class)?);
+            b.extend_from_slice(service_class);
+            let mut rel = Vec::new();
+            for r in related {
+                rel.extend_from_slice(&len16("related general sop class uid", r)?);
+                rel.extend_from_slice(r);
+            }
+            b.extend_from_slice(&len16("related general sop class identification", &rel)?);
+            b.extend_from_slice(&rel);
+            b.extend_from_slice(reserved);
+        }
+        RUserItem::UserIdentityRq { id_type, positive_response, primary, secondary } => {
+            b.push(*id_type);
+            b.push(*positive_response);
+            b.extend_from_slice(&len16("primary field", primary)?);
+            b.extend_from_slice(primary);
+            b.extend_from_slice(&len16("secondary field", secondary)?);
+            b.extend_from_slice(secondary);
+        }
+        RUserItem::UserIdentityAc { response } => {
+            b.extend_from_slice(&len16("server response", response)?);
+            b.extend_from_slice(response);
+        }
+        RUserItem::Unknown { data, .. } => b.extend_from_slice(data),
+    }
+    item(u.item_type(), &b)
+}
+
+fn encode_head(h: &RAssocHead, pcs: Vec<Vec<u8>>) -> Result<Vec<u8>, String> {
+    if h.called_ae.len() != 16 || h.calling_ae.len() != 16 {
+        return Err("AE title fields must be exactly 16 bytes".into());
+    }
+    let mut b = Vec::new();
+    b.extend_from_slice(&h.protocol_version.to_be_bytes());
+    b.extend_from_slice(&[0, 0]);
+    b.extend_from_slice(&h.called_ae);
+    b.extend_from_slice(&h.calling_ae);
+    b.extend_from_slice(&[0u8; 32]);
+    b.extend(item(0x10, &h.app_context)?);
+    for pc in pcs {
+        b.extend(pc);
+    }
+    if let Some(users) = &h.user_info {
+        let mut ub = Vec::new();
+        for u in users {
+            ub.extend(encode_user_item(u)?);
+        }
+        b.extend(item(0x50, &ub)?);
+    }
+    Ok(b)
+}
+
+/// Encode a PDU. Every length field is derived from the content it frames;
+/// `Err` when some content does not fit its length field.
+pub fn encode(p: &RPdu) -> Result<Vec<u8>, String> {
+    match p {
+        RPdu::AssociateRq { head, pcs } => {
+            let mut items = Vec::new();
+            for pc in pcs {
+                let mut b = vec![pc.id, 0, 0, 0];
+                b.extend(item(0x30, &pc.abstract_syntax)?);
+                for ts in &pc.transfer_syntaxes {
+                    b.extend(item(0x40, ts)?);
+                }
+                items.push(item(0x20, &b)?);
+            }
+            frame(T_ASSOCIATE_RQ, &encode_head(head, items)?)
+        }
+        RPdu::AssociateAc { head, pcs } => {
+            let mut items = Vec::new();
+            for pc in pcs {
+                let mut b = vec![pc.id, 0, pc.result, 0];
+                b.extend(item(0x40, &pc.transfer_syntax)?);
+                items.push(item(0x21, &b)?);
+            }
+            frame(T_ASSOCIATE_AC, &encode_head(head, items)?)
+        }
+        RPdu::AssociateRj { result, source, reason } => frame(T_ASSOCIATE_RJ, &[0, *result, *source, *reason]),
+        RPdu::PData(pdvs) => {
+            let mut b = Vec::new();
+            for v in pdvs {
+                let l = v.data.len() + 2;
+                if l > 0xFFFF_FFFF {
+                    return Err("PDV does not fit a 32-bit length".into());
+                }
+                b.extend_from_slice(&(l as u32).to_be_bytes());
+                b.push(v.pc_id);
+                b.push(v.header);
+                b.extend_from_slice(&v.data);
+            }
+            frame(T_PDATA, &b)
+        }
+        RPdu::ReleaseRq => frame(T_RELEASE_RQ, &[0; 4]),
+        RPdu::ReleaseRp => frame(T_RELEASE_RP, &[0; 4]),
+        RPdu::Abort { source, reason } => frame(T_ABORT, &[0, 0, *source, *reason]),
+        RPdu::Unknown { pdu_type, data } => frame(*pdu_type, data),
+    }
+}
+
+/// Encode a sequence of PDUs into one byte stream; also returns the end offset of every PDU.
+pub fn encode_stream(pdus: &[RPdu]) -> Result<(Vec<u8>, Vec<usize>), String> {
+    let mut out = Vec::new();
+    let mut ends = Vec::new();
+    for p in pdus {
+        out.extend(encode(p)?);
+        ends.push(out.len());
+    }
+    Ok((out, ends))
+}
+
+// ------------------------------------------------------------------------------------------------
+// strict parser
+
+/// What the strict parser insists on beyond exact framing.
+#[derive(Clone, Copy, Debug)]
+pub struct ParseOpts {
+    /// reserved bytes must be zero ("shall be sent with a value 00H"): right for checking a sender
+    pub reserved_zero: bool,
+    /// application context first, then presentation contexts, then user information;
+    /// abstract syntax before transfer syntaxes
+    pub item_order: bool,
+}
+
+impl Default for ParseOpts {
+    fn default() -> Self {
+        ParseOpts { reserved_zero: true, item_order: true }
+    }
+}
+
+impl ParseOpts {
+    /// Framing only: lengths must be exact, reserved bytes and item order are not checked.
+    pub fn lenient() -> Self {
+        ParseOpts { reserved_zero: false, item_order: false }
+    }
+}
+
+struct Cur<'a> {
+    b: &'a [u8],
+    pos: usize,
+    what: &'static str,
+}
+
+impl<'a> Cur<'a> {
+    fn new(b: &'a [u8], what: &'static str) -> Self {
+        Cur { b, pos: 0, what }
+    }
+    fn rest(&self) -> usize {
+        self.b.len() - self.pos
+    }
+    fn take(&mut self, n: usize, field: &str) -> Result<&'a [u8], String> {
+        if self.rest() < n {
+            return Err(format!(
+                "{}: field {field} needs {n} bytes at offset {}, only {} left",
+                self.what,
+                self.pos,
+                self.rest()
+            ));
+        }
+        let s = &self.b[self.pos..self.pos + n];
+        self.pos += n;
+        Ok(s)
+    }
+    fn u8(&mut self, field: &str) -> Result<u8, String> {
+        Ok(self.take(1, field)?[0])
+    }
+    fn u16(&mut self, field: &str) -> Result<u16, String> {
+        let s = self.take(2, field)?;
+        Ok(u16::from_be_bytes([s[0], s[1]]))
+    }
+    fn u32(&mut self, field: &str) -> Result<u32, String> {
+        let s = self.take(4, field)?;
+        Ok(u32::from_be_bytes([s[0], s[1], s[2], s[3]]))
+    }
+    fn reserved(&mut self, n: usize, o: &ParseOpts) -> Result<(), String> {
+        let at = self.pos;
+        let s = self.take(n, "reserved")?;
+        if o.reserved_zero && s.iter().any(|&x| x != 0) {
+            return Err(format!("{}: reserved bytes at offset {at} are not zero: {}", self.what, hex(s)));
+        }
+        Ok(())
+    }
+    /// item header: (type, body)
+    fn item(&mut self, o: &ParseOpts) -> Result<(u8, &'a [u8]), String> {
+        let t = self.u8("item type")?;
+        self.reserved(1, o)?;
+        let l = self.u16("item length")? as usize;
+        let body = self.take(l, "item body")?;
+        Ok((t, body))
+    }
+    fn done(&self) -> Result<(), String> {
+        if self.rest() != 0 {
+            return Err(format!("{}: {} bytes left over inside the length that frames it", self.what, self.rest()));
+        }
+        Ok(())
+    }
+}
+
+fn parse_user_item(t: u8, body: &[u8], o: &ParseOpts) -> Result<RUserItem, String> {
+    let mut c = Cur::new(body, "user information sub-item");
+    let it = match t {
+        0x51 => RUserItem::MaxLength(c.u32("maximum length")?),
+        0x52 => RUserItem::ImplClassUid(c.take(body.len(), "uid")?.to_vec()),
+        0x53 => RUserItem::AsyncOpsWindow { invoked: c.u16("invoked")?, performed: c.u16("performed")? },
+        0x54 => {
+            let l = c.u16("uid length")? as usize;
+            let uid = c.take(l, "uid")?.to_vec();
+            RUserItem::RoleSelection { uid, scu: c.u8("scu role")?, scp: c.u8("scp role")? }
+        }
+        0x55 => RUserItem::ImplVersionName(c.take(body.len(), "name")?.to_vec()),
+        0x56 => {
+            let l = c.u16("uid length")? as usize;
+            let uid = c.take(l, "uid")?.to_vec();
+            let info = c.take(c.rest(), "application information")?.to_vec();
+            RUserItem::ExtNeg { uid, info }
+        }
+        0x57 => {
+            let l = c.u16("uid length")? as usize;
+            let uid = c.take(l, "uid")?.to_vec();
+            let l = c.u16("service class uid length")? as usize;
+            let service_class = c.take(l, "service class uid")?.to_vec();
+            let l = c.u16("related general sop class identification length")? as usize;
+            let rel = c.take(l, "related general sop class identification")?;
+            let mut rc = Cur::new(rel, "related general sop class identification");
+            let mut related = Vec::new();
+            while rc.rest() > 0 {
+                let l = rc.u16("uid length")? as usize;
+                related.push(rc.take(l, "uid")?.to_vec());
+            }
+            let reserved = c.take(c.rest(), "reserved")?.to_vec();
+            RUserItem::CommonExtNeg { uid, service_class, related, reserved }
+        }
+        0x58 => {
+            let id_type = c.u8("user identity type")?;
+            let positive_response = c.u8("positive response requested")?;
+            let l = c.u16("primary field length")? as usize;
+            let primary = c.take(l, "primary field")?.to_vec();
+            let l = c.u16("secondary field length")? as usize;
+            let secondary = c.take(l, "secondary field")?.to_vec();
+            RUserItem::UserIdentityRq { id_type, positive_response, primary, secondary }
+        }
+        0x59 => {
+            let l = c.u16("server response length")? as usize;
+            RUserItem::UserIdentityAc { response: c.take(l, "server response")?.to_vec() }
+        }
+        _ => RUserItem::Unknown { item_type: t, data: c.take(body.len(), "data")?.to_vec() },
+    };
+    c.done().map_err(|e| format!("sub-item {t:02X}H: {e}"))?;
+    let _ = o;
+    Ok(it)
+}
+
+enum Pc {
+    Rq(RPcRq),
+    Ac(RPcAc),
+}
+
+fn parse_assoc(body: &[u8], is_rq: bool, o: &ParseOpts) -> Result<(RAssocHead, Vec<Pc>), String> {
+    let mut c = Cur::new(body, if is_rq { "A-ASSOCIATE-RQ" } else { "A-ASSOCIATE-AC" });
+    let protocol_version = c.u16("protocol version")?;
+    c.reserved(2, o)?;
+    let called_ae = c.take(16, "called AE title")?.to_vec();
+    let calling_ae = c.take(16, "calling AE title")?.to_vec();
+    c.reserved(32, o)?;
+    let mut app_context: Option<Vec<u8>> = None;
+    let mut pcs = Vec::new();
+    let mut user_info: Option<Vec<RUserItem>> = None;
+    while c.rest() > 0 {
+        let (t, ib) = c.item(o)?;
+        match t {
+            0x10 => {
+                if app_context.is_some() {
+                    return Err("more than one application context item".into());
+                }
+                if o.item_order && (!pcs.is_empty() || user_info.is_some()) {
+                    return Err("application context item is not the first item".into());
+                }
+                app_context = Some(ib.to_vec());
+            }
+            0x20 if is_rq => {
+                if o.item_order && user_info.is_some() {
+                    return Err("presentation context item after the user information item".into());
+                }
+                let mut pc = Cur::new(ib, "presentation context item (RQ)");
+                let id = pc.u8("presentation context id")?;
+                pc.reserved(3, o)?;
+                let mut abstract_syntax: Option<Vec<u8>> = None;
+                let mut transfer_syntaxes = Vec::new();
+                while pc.rest() > 0 {
+                    let (st, sb) = pc.item(o)?;
+                    match st {
+                        0x30 => {
+                            if abstract_syntax.is_some() {
+                                return Err("more than one abstract syntax sub-item".into());
+                            }
+                            if o.item_order && !transfer_syntaxes.is_empty() {
+                                return Err("abstract syntax sub-item after a transfer syntax sub-item".into());
+                            }
+                            abstract_syntax = Some(sb.to_vec());
+                        }
+                        0x40 => transfer_syntaxes.push(sb.to_vec()),
+                        x => return Err(format!("unexpected sub-item {x:02X}H in a proposed presentation context")),
+                    }
+                }
+                let abstract_syntax =
+                    abstract_syntax.ok_or_else(|| "presentation context without abstract syntax".to_string())?;
+                pcs.push(Pc::Rq(RPcRq { id, abstract_syntax, transfer_syntaxes }));
+            }
+            0x21 if !is_rq => {
+                if o.item_order && user_info.is_some() {
+                    return Err("presentation context item after the user information item".into());
+                }
+                let mut pc = Cur::new(ib, "presentation context item (AC)");
+                let id = pc.u8("presentation context id")?;
+                pc.reserved(1, o)?;
+                let result = pc.u8("result/reason")?;
+                pc.reserved(1, o)?;
+                let (st, sb) = pc.item(o)?;
+                if st != 0x40 {
+                    return Err(format!("unexpected sub-item {st:02X}H in a presentation context result"));
+                }
+                pc.done()?;
+                pcs.push(Pc::Ac(RPcAc { id, result, transfer_syntax: sb.to_vec() }));
+            }
+            0x50 => {
+                if user_info.is_some() {
+                    return Err("more than one user information item".into());
+                }
+                let mut uc = Cur::new(ib, "user information item");
+                let mut v = Vec::new();
+                while uc.rest() > 0 {
+                    let (st, sb) = uc.item(o)?;
+                    v.push(parse_user_item(st, sb, o)?);
+                }
+                user_info = Some(v);
+            }
+            x => return Err(format!("unexpected item {x:02X}H in {}", c.what)),
+        }
+    }
+    let app_context = app_context.ok_or_else(|| "no application context item".to_string())?;
+    Ok((RAssocHead { protocol_version, called_ae, calling_ae, app_context, user_info }, pcs))
+}
+
+/// Parse the body of a PDU of the given type (the 6-byte header already removed).
+pub fn parse_body(pdu_type: u8, body: &[u8], o: &ParseOpts) -> Result<RPdu, String> {
+    match pdu_type {
+        T_ASSOCIATE_RQ => {
+            let (head, pcs) = parse_assoc(body, true, o)?;
+            let pcs = pcs
+                .into_iter()
+                .map(|p| match p {
+                    Pc::Rq(p) => p,
+                    Pc::Ac(_) => unreachable!(),
+                })
+                .collect();
+            Ok(RPdu::AssociateRq { head, pcs })
+        }
+        T_ASSOCIATE_AC => {
+            let (head, pcs) = parse_assoc(body, false, o)?;
+            let pcs = pcs
+                .into_iter()
+                .map(|p| match p {
+                    Pc::Ac(p) => p,
+                    Pc::Rq(_) => unreachable!(),
+                })
+                .collect();
+            Ok(RPdu::AssociateAc { head, pcs })
+        }
+        T_ASSOCIATE_RJ => {
+            let mut c = Cur::new(body, "A-ASSOCIATE-RJ");
+            c.reserved(1, o)?;
+            let result = c.u8("result")?;
+            let source = c.u8("source")?;
+            let reason = c.u8("reason")?;
+            c.done()?;
+            Ok(RPdu::AssociateRj { result, source, reason })
+        }
+        T_PDATA => {
+            let mut c = Cur::new(body, "P-DATA-TF");
+            let mut pdvs = Vec::new();
+            while c.rest() > 0 {
+                let l = c.u32("PDV length")? as usize;
+                if l < 2 {
+                    return Err(format!("P-DATA-TF: PDV length {l} is smaller than its own 2-byte header"));
+                }
+                let pc_id = c.u8("presentation context id")?;
+                let header = c.u8("message control header")?;
+                if o.reserved_zero && header & 0xFC != 0 {
+                    return Err(format!("P-DATA-TF: message control header {header:02X}H has reserved bits set"));
+                }
+                let data = c.take(l - 2, "PDV data")?.to_vec();
+                pdvs.push(RPdv { pc_id, header, data });
+            }
+            Ok(RPdu::PData(pdvs))
+        }
+        T_RELEASE_RQ | T_RELEASE_RP => {
+            let mut c = Cur::new(body, "A-RELEASE");
+            c.reserved(4, o)?;
+            c.done()?;
+            Ok(if pdu_type == T_RELEASE_RQ { RPdu::ReleaseRq } else { RPdu::ReleaseRp })
+        }
+        T_ABORT => {
+            let mut c = Cur::new(body, "A-ABORT");
+            c.reserved(2, o)?;
+            let source = c.u8("source")?;
+            let reason = c.u8("reason")?;
+            c.done()?;
+            Ok(RPdu::Abort { source, reason })
+        }
+        t => Ok(RPdu::Unknown { pdu_type: t, data: body.to_vec() }),
+    }
+}
+
+/// Try to take one PDU from the front of `buf`.
+/// `Ok(None)`: the buffer holds only a proper prefix of a PDU (fewer than 6 header bytes, or fewer
+/// body bytes than the length field announces). `Ok(Some((pdu, consumed)))` otherwise.
+pub fn take_pdu(buf: &[u8], o: &ParseOpts) -> Result<Option<(RPdu, usize)>, String> {
+    if buf.len() < 6 {
+        return Ok(None);
+    }
+    if o.reserved_zero && buf[1] != 0 {
+        return Err(format!("PDU header: reserved byte is {:02X}H", buf[1]));
+    }
+    let len = u32::from_be_bytes([buf[2], buf[3], buf[4], buf[5]]) as usize;
+    if buf.len() - 6 < len {
+        return Ok(None);
+    }
+    let pdu = parse_body(buf[0], &buf[6..6 + len], o)?;
+    Ok(Some((pdu, 6 + len)))
+}
+
+/// Parse exactly one PDU occupying the whole of `buf`.
+pub fn parse(buf: &[u8], o: &ParseOpts) -> Result<RPdu, String> {
+    match take_pdu(buf, o)? {
+        None => Err(format!("truncated PDU ({} bytes)", buf.len())),
+        Some((p, n)) if n == buf.len() => Ok(p),
+        Some((_, n)) => Err(format!("{} bytes follow the PDU", buf.len() - n)),
+    }
+}
+
+/// Parse a byte stream into complete PDUs; returns the PDUs and the number of trailing bytes that
+/// do not form a complete PDU.
+pub fn parse_stream(buf: &[u8], o: &ParseOpts) -> Result<(Vec<RPdu>, usize), String> {
+    let mut pos = 0;
+    let mut out = Vec::new();
+    while let Some((p, n)) = take_pdu(&buf[pos..], o).map_err(|e| format!("PDU #{} at offset {pos}: {e}", out.len()))? {
+        out.push(p);
+        pos += n;
+    }
+    Ok((out, buf.len() - pos))
+}
+
+#[cfg(test)]
+mod tests {
+    use super::*;
+
+    fn rq() -> RPdu {
+        let mut head = RAssocHead::new("SCP", "SCU");
+        head.user_info = Some(vec![
+            RUserItem::MaxLength(16384),
+            RUserItem::ImplClassUid(b"1.2.3".to_vec()),
+            RUserItem::AsyncOpsWindow { invoked: 1, performed: 2 },
+            RUserItem::RoleSelection { uid: b"1.2.840.10008.1.1".to_vec(), scu: 1, scp: 0 },
+            RUserItem::ImplVersionName(b"V1".to_vec()),
+            RUserItem::ExtNeg { uid: b"1.2".to_vec(), info: vec![1, 2, 3] },
+            RUserItem::CommonExtNeg {
+                uid: b"1.2".to_vec(),
+                service_class: b"1.3".to_vec(),
+                related: vec![b"1.4".to_vec(), b"1.5.6".to_vec()],
+                reserved: vec![],
+            },
+            RUserItem::UserIdentityRq { id_type: 2, positive_response: 1, primary: b"u".to_vec(), secondary: b"pw".to_vec() },
+            RUserItem::Unknown { item_type: 0x5A, data: vec![9] },
+        ]);
+        RPdu::AssociateRq {
+            head,
+            pcs: vec![
+                RPcRq { id: 1, abstract_syntax: b"1.2.840.10008.1.1".to_vec(), transfer_syntaxes: vec![b"1.2.840.10008.1.2".to_vec()] },
+                RPcRq { id: 3, abstract_syntax: b"1.2.3".to_vec(), transfer_syntaxes: vec![b"1.2.840.10008.1.2".to_vec(), b"1.2.840.10008.1.2.1".to_vec()] },
+            ],
+        }
+    }
+
+    fn all() -> Vec<RPdu> {
+        let mut head = RAssocHead::new("SCP", "SCU");
+        head.user_info = Some(vec![RUserItem::MaxLength(0), RUserItem::UserIdentityAc { response: b"ok".to_vec() }]);
+        vec![
+            rq(),
+            RPdu::AssociateAc { head, pcs: vec![RPcAc { id: 1, result: 0, transfer_syntax: b"1.2.840.10008.1.2".to_vec() }] },
+            RPdu::AssociateRj { result: 1, source: 1, reason: 7 },
+            RPdu::PData(vec![RPdv::new(1, true, true, vec![1, 2, 3]), RPdv::new(1, false, false, vec![])]),
+            RPdu::PData(vec![]),
+            RPdu::ReleaseRq,
+            RPdu::ReleaseRp,
+            RPdu::Abort { source: 2, reason: 6 },
+            RPdu::Unknown { pdu_type: 0xFF, data: vec![1, 2, 3] },
+        ]
+    }
+
+    #[test]
+    fn known_bytes() {
+        assert_eq!(encode(&RPdu::ReleaseRq).unwrap(), [5, 0, 0, 0, 0, 4, 0, 0, 0, 0]);
+        assert_eq!(encode(&RPdu::Abort { source: 2, reason: 1 }).unwrap(), [7, 0, 0, 0, 0, 4, 0, 0, 2, 1]);
+        assert_eq!(
+            encode(&RPdu::PData(vec![RPdv::new(3, false, true, vec![0xAA, 0xBB])])).unwrap(),
+            [4, 0, 0, 0, 0, 8, 0, 0, 0, 4, 3, 2, 0xAA, 0xBB]
+        );
+        // PS3.8 Table 9-11 layout: a minimal request
+        let p = RPdu::AssociateRq {
+            head: RAssocHead { user_info: Some(vec![RUserItem::MaxLength(0x01020304)]), ..RAssocHead::new("B", "A") },
+            pcs: vec![RPcRq { id: 1, abstract_syntax: b"1.1".to_vec(), transfer_syntaxes: vec![b"1.2".to_vec()] }],
+        };
+        let b = encode(&p).unwrap();
+        assert_eq!(&b[..10], &[1, 0, 0, 0, 0, (b.len() - 6) as u8, 0, 1, 0, 0]);
+        assert_eq!(&b[10..26], b"B               ");
+        assert_eq!(&b[26..42], b"A               ");
+        assert!(b[42..74].iter().all(|&x| x == 0));
+        let tail = &b[74..];
+        let mut want = vec![0x10, 0, 0, 21];
+        want.extend_from_slice(APP_CONTEXT.as_bytes());
+        want.extend_from_slice(&[0x20, 0, 0, 18, 1, 0, 0, 0, 0x30, 0, 0, 3, b'1', b'.', b'1', 0x40, 0, 0, 3, b'1', b'.', b'2']);
+        want.extend_from_slice(&[0x50, 0, 0, 8, 0x51, 0, 0, 4, 1, 2, 3, 4]);
+        assert_eq!(tail, &want[..]);
+    }
+
+    #[test]
+    fn round_trip_and_prefixes() {
+        let o = ParseOpts::default();
+        for p in all() {
+            let b = encode(&p).unwrap();
+            assert_eq!(parse(&b, &o).unwrap(), p, "{}", p.summary());
+            for k in 0..b.len() {
+                assert!(matches!(take_pdu(&b[..k], &o), Ok(None)), "prefix {k} of {}", p.summary());
+            }
+        }
+        let (bytes, ends) = encode_stream(&all()).unwrap();
+        let (back, rest) = parse_stream(&bytes, &o).unwrap();
+        assert_eq!(back, all());
+        assert_eq!(rest, 0);
+        assert_eq!(*ends.last().unwrap(), bytes.len());
+    }
+
+    #[test]
+    fn every_length_is_checked() {
+        let o = ParseOpts::default();
+        let b = encode(&rq()).unwrap();
+        // changing any single length byte (16-bit item lengths, nested lengths) must be noticed:
+        // walk over the offsets of all length fields by re-deriving them from the grammar
+        let mut len_offsets = vec![];
+        let mut pos = 6 + 68;
+        while pos < b.len() {
+            len_offsets.push(pos + 2);
+            let t = b[pos];
+            let l = u16::from_be_bytes([b[pos + 2], b[pos + 3]]) as usize;
+            let (mut q, end) = match t {
+                0x20 => (pos + 8, pos + 4 + l),
+                0x50 => (pos + 4, pos + 4 + l),
+                _ => (pos + 4 + l, pos + 4 + l),
+            };
+            while q < end {
+                len_offsets.push(q + 2);
+                q += 4 + u16::from_be_bytes([b[q + 2], b[q + 3]]) as usize;
+            }
+            pos = end;
+        }
+        assert!(len_offsets.len() > 15);
+        for off in len_offsets {
+            for delta in [1i32, -1] {
+                let mut m = b.clone();
+                let v = u16::from_be_bytes([m[off], m[off + 1]]) as i32 + delta;
+                if v < 0 {
+                    continue;
+                }
+                m[off..off + 2].copy_from_slice(&(v as u16).to_be_bytes());
+                assert!(parse(&m, &o).is_err(), "length at {off} changed by {delta} not noticed");
+            }
+        }
+        // PDU length one too small / too large
+        let mut m = b.clone();
+        m[5] = m[5].wrapping_sub(1);
+        assert!(parse(&m, &o).is_err());
+        // PDV length
+        let d = encode(&RPdu::PData(vec![RPdv::new(1, false, true, vec![1, 2])])).unwrap();
+        for delta in [1i32, -1] {
+            let mut m = d.clone();
+            m[9] = (m[9] as i32 + delta) as u8;
+            assert!(parse(&m, &o).is_err());
+        }
+        let mut m = d.clone();
+        m[9] = 1;
+        assert!(parse(&m, &o).is_err());
+    }
+
+    #[test]
+    fn overflow_is_an_error() {
+        let mut head = RAssocHead::new("SCP", "SCU");
+        head.user_info = Some(vec![RUserItem::ExtNeg { uid: b"1.2".to_vec(), info: vec![0; 70_000] }]);
+        assert!(encode(&RPdu::AssociateRq { head: head.clone(), pcs: vec![] }).is_err());
+        // each sub-item fits but the user information item does not
+        head.user_info = Some(vec![
+            RUserItem::Unknown { item_type: 0x5A, data: vec![0; 40_000] },
+            RUserItem::Unknown { item_type: 0x5B, data: vec![0; 40_000] },
+        ]);
+        assert!(encode(&RPdu::AssociateRq { head: head.clone(), pcs: vec![] }).is_err());
+        head.user_info = Some(vec![RUserItem::Unknown { item_type: 0x5A, data: vec![0; 65_531] }]);
+        let b = encode(&RPdu::AssociateRq { head, pcs: vec![] }).unwrap();
+        assert!(parse(&b, &ParseOpts::default()).is_ok());
+    }
+
+    #[test]
+    fn reserved_and_order_options() {
+        let mut b = encode(&RPdu::ReleaseRq).unwrap();
+        b[7] = 1;
+        assert!(parse(&b, &ParseOpts::default()).is_err());
+        assert_eq!(parse(&b, &ParseOpts::lenient()).unwrap(), RPdu::ReleaseRq);
+        assert_eq!(text(b"1.2.840\0"), "1.2.840");
+        assert_eq!(text(b"  A B  "), "A B");
+    }
+}
